@@ -15,7 +15,7 @@
 EXTENDS Attach, Json, IOUtils, SequencesExt, FiniteSetsExt
 
 CodeDev == {"WgAddInHandler", "TeardownDeletes", "RegBeforeAck", "InheritRace", "LateWill", "TickWipes"}
-EnvAllT == {"drop", "sub", "pub", "tick", "close"}
+EnvAllT == {"drop", "sub", "pub", "tick", "close", "expire"}
 
 Trace   == ndJsonDeserialize(IOEnv.VERIF_TRACE)
 OutFile == IOEnv.VERIF_OUT
@@ -124,7 +124,7 @@ Rules(e, n) ==
           THEN {"C16.will-not-published"} ELSE {})
 
 (* ---------------------------------------------------------------- steps                     *)
-ModelVars == <<MaxClients, cfg, pc, wg, cnt, reg, trie, own, inh, stopped, tko, sp, wire, delayed, wills, resumedBy, wiped, cpc, closing, hist>>
+ModelVars == <<MaxClients, cfg, pc, wg, cnt, reg, trie, own, inh, stopped, tko, sp, wire, delayed, wills, resumedBy, wiped, cpc, closing, xp, hist>>
 
 Reset(e) ==
     /\ MaxClients' = e.max /\ cfg' = CfgOf(e)
@@ -133,7 +133,7 @@ Reset(e) ==
     /\ stopped' = [h \in H |-> FALSE] /\ tko' = [h \in H |-> FALSE] /\ sp' = [h \in H |-> FALSE]
     /\ wire' = [h \in H |-> <<>>]
     /\ delayed' = [i \in Ids |-> NoH] /\ wills' = [h \in H |-> 0] /\ resumedBy' = [h \in H |-> 0] /\ wiped' = {}
-    /\ cpc' = "idle" /\ closing' = FALSE /\ hist' = <<>>
+    /\ cpc' = "idle" /\ closing' = FALSE /\ xp' = {} /\ hist' = <<>>
     /\ scen' = [name |-> e.name, n |-> NH(e), line |-> l]
     /\ confOK' = TRUE /\ reported' = {} /\ dropped' = {} /\ subbed' = {} /\ estab' = {} /\ started' = {} /\ spawned' = {}
     /\ afterSnap' = FALSE /\ cancelled' = {} /\ prevWills' = [h \in H |-> 0]
@@ -210,7 +210,7 @@ TInit ==
     /\ stopped = [h \in H |-> FALSE] /\ tko = [h \in H |-> FALSE] /\ sp = [h \in H |-> FALSE]
     /\ wire = [h \in H |-> <<>>]
     /\ delayed = [i \in Ids |-> NoH] /\ wills = [h \in H |-> 0] /\ resumedBy = [h \in H |-> 0] /\ wiped = {}
-    /\ cpc = "idle" /\ closing = FALSE /\ hist = <<>>
+    /\ cpc = "idle" /\ closing = FALSE /\ xp = {} /\ hist = <<>>
 
 TNext ==
     /\ l <= Len(Trace)
